@@ -229,6 +229,8 @@ func runCase(t *testing.T, res *engine.Result, c caseSpec, verbose bool) {
 			// rule order first: disagreements of single requests inside a virtual host whose route list
 			// is already reported as reordered / truncated are consequences, not separate findings
 			badOrder := c.checkOrder(res, p, l, rc, readings, verbose, t)
+			bestFit := -1
+			var bestFitReading reading
 			for ri := range reqs {
 				req := reqs[ri]
 				res.Evaluations++
@@ -271,8 +273,30 @@ func runCase(t *testing.T, res *engine.Result, c caseSpec, verbose bool) {
 				}
 				// label the disagreement: prefer the reading under which the reference picks the very
 				// rule Envoy picked (then only the action differs)
-				rep := want0
-				for _, rd := range readings[1:] {
+				// (otherwise the reading that agrees with the generated table on most requests of this
+				// listener: the one istio most plausibly implements)
+				if bestFit < 0 {
+					bestN := -1
+					bestFit = 0
+					for i, rd := range readings {
+						n := 0
+						for _, q := range reqs {
+							g, _ := envoyEval(rc, q)
+							for _, w := range c.evalVSAll(p, l.Port, q, rd) {
+								if w.Decision == g.Decision || (w.Decision == decUnmanaged && unmanagedOK(g.Decision)) {
+									n++
+									break
+								}
+							}
+						}
+						if n > bestN {
+							bestFit, bestN = i, n
+						}
+					}
+					bestFitReading = readings[bestFit]
+				}
+				rep := c.evalVS(p, l.Port, req, bestFitReading)
+				for _, rd := range readings {
 					if w := c.evalVS(p, l.Port, req, rd); gotRule != "" && w.Why == gotRule {
 						rep = w
 						break
@@ -296,14 +320,20 @@ func runCase(t *testing.T, res *engine.Result, c caseSpec, verbose bool) {
 					}
 					key = fmt.Sprintf("vhost|%s:%d|svc=%v|auth=%s|want=%s|got=%s", p.Kind, l.Port, c.Svc, authClass(req.Authority), wantClass, gotDesc)
 				default:
-					key = fmt.Sprintf("selection|%s:%d|auth=%s|want=%s|got=%s", p.Kind, l.Port, authClass(req.Authority), wantDesc, gotDesc)
+					// name the match shape that misbehaves: the generated route that took a request its
+					// rule does not cover (over-match), else the rule whose request was not taken (under-match)
+					if gotRule != "" && (rep.MatchName == "" || !sameVS(rep.Why, gotRule) || ruleBefore(gotRule, rep.Why)) {
+						key = fmt.Sprintf("selection|%s:%d|over-match|%s", p.Kind, l.Port, gotDesc)
+					} else {
+						key = fmt.Sprintf("selection|%s:%d|under-match|%s", p.Kind, l.Port, wantDesc)
+					}
 				}
 				var alts []string
-				for _, rd := range readings[1:] {
+				for _, rd := range readings {
 					alts = append(alts, c.evalVS(p, l.Port, req, rd).Decision)
 				}
 				desc := fmt.Sprintf("case {%s}; %s listener %d; request %s: the VirtualService semantics give %s (%s), the generated route table %q gives %s (vhost %q route %q)%s",
-					c, p.Kind, l.Port, req, want0.Decision, want0.Why, rc.GetName(), got.Decision, got.VHost, got.Route, altText(alts))
+					c, p.Kind, l.Port, req, rep.Decision, rep.Why, rc.GetName(), got.Decision, got.VHost, got.Route, altText(alts))
 				res.Violate(key, desc, replayC12{Case: c, Proxy: p.Kind, Port: l.Port, Request: &req})
 				if verbose {
 					t.Logf("VIOLATION %s\n  %s", key, desc)
@@ -319,6 +349,25 @@ func runCase(t *testing.T, res *engine.Result, c caseSpec, verbose bool) {
 			break
 		}
 	}
+}
+
+// sameVS / ruleBefore compare two attributions of the form "<vs>/r<i>[.m<j>]".
+func sameVS(a, b string) bool {
+	return strings.SplitN(a, "/", 2)[0] == strings.SplitN(b, "/", 2)[0]
+}
+
+func ruleBefore(a, b string) bool {
+	pa := routeNameRe.FindStringSubmatch(strings.SplitN(a+"/", "/", 3)[1])
+	pb := routeNameRe.FindStringSubmatch(strings.SplitN(b+"/", "/", 3)[1])
+	if pa == nil || pb == nil {
+		return false
+	}
+	var ia, ja, ib, jb int
+	fmt.Sscan(pa[1], &ia)
+	fmt.Sscan(pb[1], &ib)
+	fmt.Sscan(pa[2], &ja)
+	fmt.Sscan(pb[2], &jb)
+	return ia < ib || (ia == ib && ja < jb)
 }
 
 func altText(alts []string) string {
@@ -482,7 +531,13 @@ func couldBeCatchAll(i int) bool {
 	}
 	for _, m := range alt.Entries {
 		uriAll := m.URI == nil || (m.URI.Kind == "prefix" && m.URI.Val == "/") || (m.URI.Kind == "regex" && m.URI.Val == ".*")
-		if uriAll && len(m.Headers) == 0 && len(m.WithoutHeaders) == 0 && len(m.QueryParams) == 0 && m.Method == nil && m.Authority == nil {
+		nh := 0
+		for k := range m.Headers {
+			if !reservedHeaderKey(k) {
+				nh++
+			}
+		}
+		if uriAll && nh == 0 && len(m.WithoutHeaders) == 0 && len(m.QueryParams) == 0 && m.Method == nil && m.Authority == nil {
 			return true
 		}
 	}
@@ -536,6 +591,12 @@ func enumerate(thorough bool) (cases []caseSpec, spaces map[string]int) {
 		for m2 := 0; m2 < nM; m2++ {
 			for sh := 0; sh < nShapes; sh++ {
 				for _, svc := range bools {
+					ra1 := m1 % quickActions
+					ra2 := (ra1 + 1 + m2%(quickActions-1)) % quickActions
+					if sh == shapeA && svc && (thorough || matchAlphabet[m1].Core || matchAlphabet[m2].Core) {
+						// the same two rules as two VirtualServices on one host (gateway merge)
+						add("split-pair", caseSpec{Shape: sh, Svc: svc, DR: true, Bind: bindBoth, Rules: []ruleSpec{{m1, ra1}, {m2, ra2}}, Split: 1})
+					}
 					if thorough {
 						for a1 := 0; a1 < nA; a1++ {
 							for a2 := 0; a2 < nA; a2++ {
@@ -544,7 +605,9 @@ func enumerate(thorough bool) (cases []caseSpec, spaces map[string]int) {
 									// the duplicate-rule diagonal
 									continue
 								}
-								if sh >= shapeAW && (a1 >= quickActions || a2 >= quickActions) {
+								if (a1 >= quickActions || a2 >= quickActions) && !(sh == shapeA && svc && m1 == m2) {
+									// the three extra actions differ from the first four only in the action
+									// translation: all singles, and the duplicate-rule diagonal here
 									continue
 								}
 								add("pair", caseSpec{Shape: sh, Svc: svc, DR: true, Bind: bindBoth, Rules: []ruleSpec{{m1, a1}, {m2, a2}}})
@@ -552,13 +615,11 @@ func enumerate(thorough bool) (cases []caseSpec, spaces map[string]int) {
 						}
 						continue
 					}
-					a1 := m1 % quickActions
-					a2 := (a1 + 1 + m2%(quickActions-1)) % quickActions
-					add("pair", caseSpec{Shape: sh, Svc: svc, DR: true, Bind: bindBoth, Rules: []ruleSpec{{m1, a1}, {m2, a2}}})
-					if sh == shapeA && svc {
-						// the same two rules as two VirtualServices on one host (gateway merge)
-						add("split-pair", caseSpec{Shape: sh, Svc: svc, DR: true, Bind: bindBoth, Rules: []ruleSpec{{m1, a1}, {m2, a2}}, Split: 1})
+					if sh >= shapeAW && !(matchAlphabet[m1].Core || matchAlphabet[m2].Core) {
+						// quick: the two-VirtualService shapes only with a core match in the pair
+						continue
 					}
+					add("pair", caseSpec{Shape: sh, Svc: svc, DR: true, Bind: bindBoth, Rules: []ruleSpec{{m1, ra1}, {m2, ra2}}})
 				}
 			}
 		}
@@ -583,7 +644,9 @@ func enumerate(thorough bool) (cases []caseSpec, spaces map[string]int) {
 				rules := []ruleSpec{{m1, rot}, {m2, (rot + 1) % quickActions}, {m3, (rot + 2) % quickActions}}
 				add("triple", caseSpec{Shape: shapeA, Svc: true, DR: true, Bind: bindBoth, Rules: rules})
 				add("split-triple", caseSpec{Shape: shapeA, Svc: true, DR: true, Bind: bindBoth, Rules: rules, Split: 1})
-				add("split-triple", caseSpec{Shape: shapeA, Svc: true, DR: true, Bind: bindBoth, Rules: rules, Split: 2})
+				if thorough && matchAlphabet[m1].Core && matchAlphabet[m2].Core && matchAlphabet[m3].Core {
+					add("split-triple", caseSpec{Shape: shapeA, Svc: true, DR: true, Bind: bindBoth, Rules: rules, Split: 2})
+				}
 				if thorough {
 					add("triple", caseSpec{Shape: shapeW, Svc: false, DR: true, Bind: bindBoth, Rules: rules})
 				}
